@@ -35,6 +35,14 @@ CLAIMED = {
             'clock offsets. Trie keys are hashed, so names are concrete per path (stated). Bounded.'),
     'C10': ('5-C10', 'Envelope codec, wrapped-vs-bare equivalence on two fresh applications, Nack reason delivery for all 2^64 '
             'reasons, fragment rejection and token/reply pairing for symbolic tokens are decided per path. Bounded.'),
+    'C11': ('5-C11', 'Schemas are enumerated programs; for each, the name is symbolic (all lengths up to the longest rule + 1, all '
+            'component values) and the set of (rule, bindings) reported by the real checker - before and after save/load - is '
+            'compared with a reference evaluator working on the source text. Bounded.'),
+    'C12': ('5-C12', 'Packet and key names both symbolic; Checker.check is compared with the signing relation evaluated by the '
+            'reference on the source text for all length pairs in the bound. Bounded.'),
+    'C13': ('5-C13', 'One field of each compiled model is a solver variable (or absent) at every position: the loader must raise '
+            'LvsModelError iff the documented sanity rules are broken and queries on accepted models terminate within a step '
+            'budget. Ill-formed schema texts are concrete programs: enumerated and reported separately (not solver-quantified).'),
 }
 NOT_YET = 'check not built yet in this revision of /verif (planned in DESIGN.md section 5)'
 NA = {
